@@ -7,6 +7,7 @@ import (
 	ucfg "github.com/elastic/go-ucfg"
 
 	"verif/internal/core"
+	"verif/internal/tree"
 )
 
 // C09, interface-keyed maps (what the YAML decoder delivers): every map of up to three keys
@@ -75,6 +76,51 @@ func c09IfaceKeys() *core.Space {
 					return "newfrom:" + errClass(err)
 				}
 				return observeConfig(c)
+			}}
+			return c09Explore(sc, 2, 3000)
+		},
+	}
+}
+
+// C09, merging over a reference to a setting that the same Merge changes as well: the result
+// may not depend on which of the two the merge happens to meet first.
+func c09MergeOverRefs() *core.Space {
+	tos := []M{
+		{"a": "${x}", "x": M{"p": 1}},
+		{"a": "${x}", "x": L{1}},
+		{"x": "${a}", "a": M{"p": 1}},
+		{"a": "${x}", "x": M{"p": 1}, "b": "${x}"},
+		{"a": M{"n": "${x}"}, "x": M{"p": 1}},
+	}
+	froms := []M{
+		{"a": M{"q": 2}, "x": M{"r": 3}},
+		{"a": L{2}, "x": L{3}},
+		{"a": M{"q": 2}, "x": "lit"},
+		{"x": M{"r": 3}, "a": "lit"},
+		{"a": M{"q": 2}, "b": M{"s": 4}, "x": M{"r": 3}},
+		{"a": M{"n": M{"q": 2}}, "x": M{"r": 3}},
+	}
+	pols := []tree.Policy{tree.Default, tree.Append, tree.Replace}
+	radices := []int{len(tos), len(froms), len(pols)}
+	return &core.Space{
+		Name: "merge-over-references-to-merged-settings",
+		Size: product(radices...),
+		Text: func(i int) string {
+			d := mixedRadix(i, radices...)
+			return fmt.Sprintf("NewFrom(%s, VarExp).Merge(%s, %s) then Unpack/FlattenedKeys", sortedMapText(tos[d[0]]), sortedMapText(froms[d[1]]), pols[d[2]])
+		},
+		Exec: func(i int) core.Result {
+			d := mixedRadix(i, radices...)
+			sc := c09Scenario{Run: func() string {
+				opts := append([]ucfg.Option{ucfg.PathSep("."), ucfg.VarExp}, policyOpt[pols[d[2]]]...)
+				to, err := ucfg.NewFrom(tos[d[0]], opts...)
+				if err != nil {
+					return "newfrom:" + errClass(err)
+				}
+				if err := to.Merge(froms[d[1]], opts...); err != nil {
+					return "merge:" + errClass(err) + " " + observeConfig(to, opts...)
+				}
+				return observeConfig(to, opts...)
 			}}
 			return c09Explore(sc, 2, 3000)
 		},
